@@ -12,7 +12,14 @@
    whenever the queue is non-empty (and the runtime context is alive, i.e. Close has not finished or
    given up).  FixF3 = FALSE is the code before the fix: re-schedule only if
    `len(queue) > 0 && !shard.closed && !parent.closed` (finding F3, MC_f3.cfg: an item admitted
-   between the drain's last emptiness check and finishShardDrain was abandoned when Close intervened). *)
+   between the drain's last emptiness check and finishShardDrain was abandoned when Close intervened).
+
+   ReschedKeepsFlag = TRUE is the code as it is: the critical section of finishShardDrain that decides
+   to re-schedule sets `scheduled` back to true before it unlocks, so the follow-up drain owns the
+   shard.  ReschedKeepsFlag = FALSE is the variant "clear the flag, re-invoke, do not set it again"
+   (MC_f7.cfg): the follow-up drain runs while the shard looks unscheduled, the next Submit schedules a
+   second drain, and with Workers >= 2 two handlers of one shard overlap (C37_NoOverlap; 19 states).
+   Its counterexample is the gated schedule "mailbox-resched-overlap" of the harness. *)
 EXTENDS WorkQueue, TLC
 
 CONSTANTS NP, ItemsPer,
@@ -20,7 +27,8 @@ CONSTANTS NP, ItemsPer,
           QueueSize,   \* cfg.QueueSizePerShard
           Workers,     \* cfg.Workers
           BatchMax,    \* cfg.BatchMaxItems
-          FixF3
+          FixF3,
+          ReschedKeepsFlag
 
 Producers == 1..NP
 Items     == 1..(NP * ItemsPer)
@@ -154,8 +162,9 @@ W_Fin(w) ==
   /\ LET s == wshard[w]
          needs == queue[s] # <<>> /\ (FixF3 \/ (~sclosed[s] /\ ~closed)) IN
        IF needs
-         THEN /\ invoked' = [invoked EXCEPT ![s] = @ + 1]     \* scheduled stays true; invokeShard
-              /\ UNCHANGED <<scheduled, wg>>
+         THEN /\ invoked' = [invoked EXCEPT ![s] = @ + 1]     \* scheduled = true again; invokeShard
+              /\ scheduled' = [scheduled EXCEPT ![s] = ReschedKeepsFlag]
+              /\ UNCHANGED wg
          ELSE /\ scheduled' = [scheduled EXCEPT ![s] = FALSE]
               /\ wg' = wg - 1                                  \* wg.Done()
               /\ UNCHANGED invoked
